@@ -15,12 +15,12 @@
 EXTENDS Naturals
 
 VARIABLES phase,    \* "idle" | "running" | "ended_ok" | "ended_err" | "committing" | "committed" | "commit_failed"
-          kind,     \* "tx" | "script"
+          kind,     \* "tx" | "script" | "call" (contract function invoked by the host)
           nwrites,  \* register writes issued by the current execution
           nexec     \* executions finished (observation)
 lvars == <<phase, kind, nwrites, nexec>>
 
-Kinds == {"tx", "script"}
+Kinds == {"tx", "script", "call"}
 
 LInit == phase = "idle" /\ kind = "tx" /\ nwrites = 0 /\ nexec = 0
 
@@ -38,7 +38,7 @@ ExecEnd(ok) == /\ phase = "running"
                /\ phase' = IF ok THEN "ended_ok" ELSE "ended_err"
                /\ UNCHANGED <<kind, nwrites, nexec>>
 
-CommitBegin == /\ phase = "ended_ok" /\ kind = "tx"
+CommitBegin == /\ phase = "ended_ok" /\ kind \in {"tx", "call"}
                /\ phase' = "committing" /\ UNCHANGED <<kind, nwrites, nexec>>
 
 Write == /\ phase = "committing"
@@ -53,7 +53,7 @@ CommitEnd(ok) == /\ phase = "committing"
 EndX(ok, hostFailed) ==
            /\ IF ok
               THEN \/ kind = "script" /\ phase = "ended_ok"
-                   \/ kind = "tx" /\ phase = "committed"
+                   \/ kind \in {"tx", "call"} /\ phase = "committed"
               ELSE /\ phase \in {"running", "ended_err", "ended_ok", "committing", "commit_failed"}
                    /\ (phase = "ended_ok" => kind = "script")    \* a script can still fail exporting its result
                    /\ (nwrites = 0 \/ hostFailed)                \* a failed execution issued no register write
@@ -72,7 +72,7 @@ LTypeOK == /\ phase \in {"idle", "running", "ended_ok", "ended_err", "committing
            /\ kind \in Kinds /\ nwrites \in Nat
 ScriptsNeverWrite   == kind = "script" => nwrites = 0
 WritesOnlyAfterCode == nwrites > 0 => phase \in {"committing", "committed", "commit_failed", "idle"}
-WriteOnlyInCommit   == [][nwrites' > nwrites => phase = "committing" /\ kind = "tx"]_lvars
+WriteOnlyInCommit   == [][nwrites' > nwrites => phase = "committing" /\ kind \in {"tx", "call"}]_lvars
 FailedMeansNoWrites == [][(phase # "idle" /\ phase' = "idle" /\ phase # "committed" /\ ~(kind = "script" /\ phase = "ended_ok"))
                            => nwrites = 0]_lvars
 =============================================================================
